@@ -9,12 +9,40 @@ open PysparklingVerif.Sql
 -- OBLIGATION: PysparklingVerif.C12.eval_matches_reference
 /-- MAIN: for every well-typed expression tree (any depth) over typed nullable columns and every row, the
 implementation-shaped evaluation never fails and equals the SQL reference: nulls propagate through
-arithmetic and comparison, division by zero is null, AND/OR/NOT are three-valued, `between` and `!=`
+arithmetic (+ - * / %) and comparison, division and remainder by zero are null, AND/OR/NOT are three-valued, `between` and `!=`
 desugar correctly, int/double comparisons promote the int; the result has the static type or is null -/
 theorem eval_matches_reference (cols : List Ty) (e : Expr) (t : Ty) (r : Row)
     (ht : HasTy cols e t) (hr : RowOk cols r) :
     evalM r e = .ok (evalS r e) ∧ (evalS r e = .null ∨ tyOf (evalS r e) = some t) :=
   eval_ok cols e t r ht hr
+
+-- OBLIGATION: PysparklingVerif.C12.remainder_spec
+/-- `%` is the SQL remainder: null when the divisor is zero (integer or double) or an operand is null; for integers the
+remainder of the division truncated toward zero - `x = y * (x quot y) + r` with `|r| < |y|` and the sign of the dividend
+(`-7 % 3 = -1`, `7 % -3 = 1`), not Python's floor remainder -/
+theorem remainder_spec (x y : Int) :
+    arithM .mod (.int x) (.int 0) = .ok .null ∧ arithM .mod (.int x) (.dbl 0) = .ok .null ∧
+    arithM .mod (.dbl x) (.dbl 0) = .ok .null ∧ arithM .mod .null (.int y) = .ok .null ∧
+    arithM .mod (.int x) .null = .ok .null ∧
+    (y ≠ 0 → ∃ r : Int, arithM .mod (.int x) (.int y) = .ok (.int r) ∧ x = y * Int.tdiv x y + r ∧
+      r.natAbs < y.natAbs ∧ (0 ≤ x → 0 ≤ r) ∧ (x ≤ 0 → r ≤ 0)) := by
+  refine ⟨rfl, rfl, rfl, ?_, rfl, ?_⟩
+  · simp [arithM]
+  · intro hy
+    exact ⟨Int.tmod x y, by simp [arithM, hy], tmod_bounds x y hy⟩
+
+-- OBLIGATION: PysparklingVerif.C12.remainder_double_spec
+/-- … and for doubles (as exact rationals) `x - y * trunc(x / y)`: it has the sign of the dividend and is smaller than the
+divisor in absolute value -/
+theorem remainder_double_spec (x y : Rat) (hy : y ≠ 0) :
+    arithM .mod (.dbl x) (.dbl y) = .ok (.dbl (ratRem x y)) ∧
+    (0 ≤ x → 0 ≤ ratRem x y) ∧ (x ≤ 0 → ratRem x y ≤ 0) ∧
+    (ratRem x y < (if 0 ≤ y then y else -y)) ∧ ((if 0 ≤ y then -y else y) < ratRem x y) := by
+  exact ⟨by simp [arithM, ratArith, hy], ratRem_bounds x y hy⟩
+
+example : arithM .mod (.int (-7)) (.int 3) = .ok (.int (-1)) := by decide +kernel
+example : arithM .mod (.int 7) (.int (-3)) = .ok (.int 1) := by decide +kernel
+example : arithM .mod (.dbl (-15/2)) (.dbl 2) = .ok (.dbl (-3/2)) := by decide +kernel
 
 -- OBLIGATION: PysparklingVerif.C12.filter_keeps_true
 /-- filters keep exactly the rows whose predicate is TRUE (not false, not null), in their order -/
